@@ -24,6 +24,7 @@ type c15case struct {
 	status  int
 	hdr     int // 0 none, 1 Content-Length: 0, 2 Grpc-Status: 1
 	retries int
+	abort   bool // the handler aborts (panic http.ErrAbortHandler) after writing, as a forwarder does when its backend dies mid-body
 }
 
 var writePatterns = []string{"one-write", "two-writes-straddling-mem", "two-writes-straddling-max", "bytewise"}
@@ -33,7 +34,11 @@ func (c c15case) String() string {
 	if c.side == "request" {
 		return fmt.Sprintf("request mem=%d max=%d size=%d chunk=%d method=%s retries=%d", c.lim.mem, c.lim.max, c.size, c.chunk, c.method, c.retries)
 	}
-	return fmt.Sprintf("response mem=%d max=%d size=%d writes=%s method=%s status=%d header=%s retries=%d", c.lim.mem, c.lim.max, c.size, writePatterns[c.chunk], c.method, c.status, respHdrs[c.hdr], c.retries)
+	ab := ""
+	if c.abort {
+		ab = " handler-aborts-after-writing"
+	}
+	return fmt.Sprintf("response mem=%d max=%d size=%d writes=%s method=%s status=%d header=%s retries=%d%s", c.lim.mem, c.lim.max, c.size, writePatterns[c.chunk], c.method, c.status, respHdrs[c.hdr], c.retries, ab)
 }
 
 var tmpDir string
@@ -140,6 +145,9 @@ func runC15(c c15case, rep *lib.Report) {
 			for _, p := range writes(c) {
 				w.Write(p)
 			}
+			if c.abort {
+				panic(http.ErrAbortHandler)
+			}
 		})
 		req, _ = lib.ParseRequest(lib.RawRequest(c.method, "/", nil, nil, 0))
 	}
@@ -175,7 +183,13 @@ func runC15(c c15case, rep *lib.Report) {
 		if c.size > c.lim.mem && (c.lim.max == 0 || c.lim.mem < c.lim.max) {
 			rep.Count("response_spills")
 		}
-		if over {
+		if c.abort {
+			// the exchange ended with an error inside the handler: only the temp-file obligation applies
+			rep.Count("aborted_exchanges")
+			if rec.Panic == nil && rec.Code < 400 && rec.Body.Len() > 0 {
+				rep.Violate("C15:aborted-response-delivered", fmt.Sprintf("%v: client got status %d and %d bytes", c, rec.Code, rec.Body.Len()), what())
+			}
+		} else if over {
 			rep.Count("oversized_responses")
 			if rec.Panic == nil && (rec.Code < 400 || strings.Contains(rec.Body.String(), marker[:3])) {
 				rep.Violate("C15:oversized-response-delivered", fmt.Sprintf("%v: client got status %d and %d body bytes containing handler output", c, rec.Code, rec.Body.Len()), what())
@@ -198,6 +212,8 @@ func runC15(c c15case, rep *lib.Report) {
 			switch {
 			case c.lim.max > 0 && c.size > c.lim.max:
 				kind += ":over-limit"
+			case c.abort:
+				kind += ":handler-aborted"
 			case c.method == "HEAD" || c.status == 204 || c.status == 304 || c.hdr != 0:
 				kind += ":bodiless-kind"
 			default:
@@ -240,6 +256,11 @@ func c15cases(tier string) []c15case {
 					}
 				}
 			}
+			for _, wp := range []int{0, 3} {
+				for _, retries := range []int{0, 1} {
+					out = append(out, c15case{side: "response", lim: l, size: size, chunk: wp, method: "GET", status: 200, retries: retries, abort: true})
+				}
+			}
 			for wp := range writePatterns {
 				for _, method := range []string{"GET", "HEAD", "POST"} {
 					for _, status := range []int{200, 204, 304, 500} {
@@ -270,7 +291,7 @@ func RunC15(tier string, sh lib.Shard, rep *lib.Report) {
 	cases := c15cases(tier)
 	rep.Bounds["cases"] = len(cases)
 	rep.Rule = "full product (memory threshold, maximum) in {(8,16),(16,16),(32,16),(8,unlimited)} x size {0,mem-1,mem,mem+1,max-1,max,max+1,2max} x request framing {declared, chunked 1/5} / response write pattern {one, straddling mem, straddling max, bytewise} x method x response status {200,204,304,500} x header {-,Content-Length:0,Grpc-Status:1} x retries {0,1,2}; private $TMPDIR per worker inspected after every exchange; non-trivial = exchanges that spilled to disk or exceeded a limit"
-	rep.Require("request_spills", "response_spills", "oversized_requests", "oversized_responses")
+	rep.Require("request_spills", "response_spills", "oversized_requests", "oversized_responses", "aborted_exchanges")
 	for i, c := range cases {
 		if !sh.Mine(i) {
 			continue
